@@ -249,7 +249,7 @@ def array_gray_evaluated(rep: Report, fi: FuncInfo, fname: str, scalar: str) -> 
                 sft >>= 1
             want.append(r)
     try:
-        run_fragment(fi.body, {param: words}, {}, max_steps=400000, materialise=True)
+        run_fragment(fi.body, {param: words}, {}, max_steps=900000, materialise=True, funcs={nm_: f_.node for nm_, f_ in fi.module.functions.items() if nm_ != fi.name})
         rep.undecided("GRAY-UTIL", fi, what, "no value returned")
         return
     except FragReturn as r:
